@@ -13,8 +13,10 @@ behaviours; none has a size bound.
 * `no_request_when_already`, `unpin_absent_ok`
 * `stall_times_out_partial`
 * `update_only_if_recursive`, `update_unpin_false`, `source_kept`
+* `run_returns`
 * `allowed_holds_partial` — every output the model admits satisfies every clause
   of `Spec.C16`, outside the two recorded findings;
+* `holds_iff` — the Bool checker `holds` read as a proposition;
 * `C16_full_fails_streamErr`, `C16_full_fails_updateStall` — with the two
   findings the full statement is false, with concrete witnesses (replayed on the
   implementation by the corpus).
@@ -356,6 +358,33 @@ theorem allowed_holds_partial (i : Input) (o : Output) (hw : wf i = true) (ha : 
           · simp [h1 hne]
       · simp [hop]
   simp [holds, clauses, c1, c2, c3, c4, c5, c6, c7, c8, c9, c10, c11]
+
+/-! ### what the Bool checker says, as a proposition -/
+
+/-- `holds` (the checker the driver applies to the implementation's output) is exactly the property,
+clause by clause, as propositions: it cannot be quietly weaker than the statement. -/
+theorem holds_iff (i : Input) (o : Output) : holds i o = true ↔
+    ((i.op = .pin → o.res = .ok → o.final i.cid = wanted i.depth) ∧
+     (i.op = .unpin → o.res = .ok → held (o.final i.cid) = false) ∧
+     (i.op = .ls → clsAt false (i.beh 0) = .honest →
+        o.res = .st (if i.table i.cid = wanted i.depth then i.table i.cid else .u)) ∧
+     ((∃ x ∈ (served i o).zipIdx, failure i x.2 x.1.1 x.1.2 = true) → isSuccess o.res = false) ∧
+     (i.op = .pin → i.table i.cid = wanted i.depth → clsAt false (i.beh 0) = .honest →
+        o.res = .ok ∧ (∀ r ∈ o.trace, isLsOf i.cid r = true) ∧ o.trace.length ≤ 1 ∧ o.swarm = [] ∧
+          o.final i.cid = i.table i.cid) ∧
+     (i.op = .unpin → i.unpinDisable = false → held (i.table i.cid) = false →
+        (clsAt false (i.beh 0) = .honest ∨ clsAt false (i.beh 0) = .notPinned) → o.res = .ok) ∧
+     (i.op = .pin → (∃ x ∈ served i o, isPinning x.1 = true ∧ (x.2 = .stall ∨ x.2 = .noProgress)) →
+        o.res = .err) ∧
+     (o.res ≠ .hang ∧ o.res ≠ .panic) ∧
+     (∀ f t u, Req.upd f t u ∈ o.trace → i.op = .pin ∧ i.src = some f ∧ t = i.cid ∧ i.table f = .r) ∧
+     (∀ f t u, Req.upd f t u ∈ o.trace → u = false) ∧
+     (∀ s, i.src = some s → i.op = .pin →
+        (s ≠ i.cid → o.final s = i.table s) ∧ (i.table s = .r → o.final s = .r))) := by
+  simp only [holds, clauses, List.all_cons, List.all_nil, Bool.and_true, Bool.and_eq_true,
+    cPinSound_iff, cUnpinSound_iff, cLsTruthful_iff, cErrorsReported_iff, cNoRequestWhenAlready_iff,
+    cUnpinAbsentOk_iff, cStallTimesOut_iff, cReturns_iff, cUpdateOnlyIfRecursive_iff,
+    cUpdateUnpinFalse_iff, cSourceKept_iff]
 
 /-! ### the two findings: the full statement is false -/
 
